@@ -129,4 +129,3 @@ func RefGNFA(p *Prog) (*GNFA, map[string]bool) {
 	}
 	return g, syms
 }
-
